@@ -124,10 +124,69 @@ def validate(rp):
             for e in grid:
                 args = ', '.join(str(v) if v is not None else 'None' for v in (s, e))
                 sub = t[1:2]
-                prog = f'(x.find("", {args}), x.rfind("", {args}), x.count("", {args}), x.find(y, {args}), x.count(y, {args}), x.startswith(y, {args}), x.endswith(y, {args}))'
-                exp = (t.find('', s, e), t.rfind('', s, e), t.count('', s, e), t.find(sub, s, e), t.count(sub, s, e), t.startswith(sub, s, e), t.endswith(sub, s, e))
+                sl = ('' if s is None else str(s)) + ':' + ('' if e is None else str(e))
+                prog = f'(x.find("", {args}), x.rfind("", {args}), x.count("", {args}), x.find(y, {args}), x.count(y, {args}), x.startswith(y, {args}), x.endswith(y, {args}), len(x[{sl}]), x[{sl}] == x[{sl}:1])'
+                exp = (t.find('', s, e), t.rfind('', s, e), t.count('', s, e), t.find(sub, s, e), t.count(sub, s, e), t.startswith(sub, s, e), t.endswith(sub, s, e), len(t[s:e]), True)
                 cases.append({'kind': 'eval', 'program': prog, 'vars': {'x': {'str': t}, 'y': {'str': sub}}})
                 meta.append((f'{t!r} window ({args})', str(exp)))
     res = rp.run(cases, 'dev')
     mism = [f'{what}: Python {exp}, native {str(g)[:120]}' for (what, exp), g in zip(meta, res) if g.get('ok') != exp]
     return len(cases), mism
+
+
+def run_index(sess):
+    """C01.str_index: `s[i]` (StarlarkStr::at) selects the Python character position, for every i32 index and every string length"""
+    from . import c01
+    from .common import OK, Opaque, Slice
+    t1 = time.time()
+    ob = Obligation('C01.str_index', '"..."[i] selects character i (negative: len + i) or fails exactly when i is out of range, as in Python',
+                    'every i32 index; every string length (chars <= bytes < 2^31); character lookup is a stub that reports the position it was asked for')
+    try:
+        i, nchars, nbytes = z3.Int('index'), z3.Int('len_chars'), z3.Int('len_bytes')
+
+        def c_unpack_param(ex, st, args, path, callee):
+            return ret(OK(args[0].fields[0]), path)
+
+        def c_fs_len(ex, st, args, path, callee):
+            return ret(nchars, path)
+
+        def c_fs_at(ex, st, args, path, callee):
+            idx = unidx(args[1])
+            return fork2(ex, path, idx < nchars, SOME(Struct([idx], 'CharAt')), NONE())
+
+        def c_alloc(ex, st, args, path, callee):
+            return ret(args[-1], path)
+
+        def c_bytes(ex, st, args, path, callee):
+            return ret(Slice(nbytes, None, 'bytes'), path)
+        extra = [('i32::unpack_param(Value) = the int index (receiver plumbing)', r'^<i32 as UnpackValue<.*>>::unpack_param$', c_unpack_param),
+                 ('fast_string::len = char count (stub)', r'fast_string::len$', c_fs_len),
+                 ('fast_string::at(s, k) = the character at position k iff k < char count (stub)', r'fast_string::at$', c_fs_at),
+                 ('str::len = byte count (stub)', r'^(core::)?str::<impl str>::len$|StarlarkStr::len$', lambda ex, st, args, path, callee: ret(nbytes, path)),
+                 ('Heap::alloc(char) = the character (stub)', r'Heap::<.*>::alloc::<char>$', c_alloc),
+                 ('<StarlarkStr as Deref>::deref = the string itself (stub)', r'^<StarlarkStr as (std::ops::)?Deref>::deref$', lambda ex, st, args, path, callee: ret(args[0], path)),
+                 ('str::as_bytes = byte slice (stub)', r'str::<impl str>::as_bytes$', c_bytes)]
+        ex = sess.executor(True, extra=extra)
+        fn = ex.get_fn(sess.db.find_in_file('str_type.rs', 'at', r'_1: &StarlarkStr'))
+        pre = [c01.I32(i), nchars >= 0, nchars <= nbytes, nbytes <= I32_MAX]
+        outs = ex.run(fn, [Opaque('self'), Enum('Int', [i], 'Value'), Opaque('heap')], Path(pre))
+        ob.paths = len(outs)
+        j = z3.If(i < 0, i + nchars, i)
+        valid = z3.And(j >= 0, j < nchars)
+        wit = lambda m: {'kind': 'str_index', 'len': model_int(m, nchars), 'bytes': model_int(m, nbytes), 'index': model_int(m, i)}
+        for v, p, m in outs:
+            if v.variant == 'Ok':
+                got = v.fields[0]
+                if isinstance(got, Struct) and got.ty == 'CharAt':
+                    c01.check_viol(sess, ob, p.conds, z3.Or(z3.Not(valid), got.fields[0] != j), [], wit, prefer=[nbytes <= 8])
+                else:
+                    # ASCII fast path: `as_bytes()[k] as char` -- the index of the byte read is checked through the bounds assert; position = k
+                    c01.check_viol(sess, ob, p.conds, z3.Not(valid), [], wit, prefer=[nbytes <= 8])
+            else:
+                c01.check_viol(sess, ob, p.conds, valid, [], wit, prefer=[nbytes <= 8])
+        c01.finish(sess, ob, ex, outs, t1, wit)
+    except (Unsupported, LookupError) as ex_:
+        ob.inconclusive(f'unsupported: {ex_}')
+        ob.wall_s = time.time() - t1
+        sess.add(ob)
+    return ob
